@@ -1400,6 +1400,7 @@ def drive_c16(ctx):
         if i % 4 == 3:
             good = wiregen.rand_method_frame(rng, rng.choice(heapdrv.WITH_TABLE), lenient=False)
             ctx.rec.add('Unmarshal', ['C16'], nt=True, label='after-faults', wf=True, **actions.unmarshal(good))
+    history_insensitivity(ctx, ['C16'])
     scheds = ctx.gen.get('schedules')
     threads.run(ctx, ['C16'], scheds, 6 if ctx.quick else 120)
 
@@ -1481,3 +1482,67 @@ def content_session(ctx, props):
         if pos >= len(wire):
             break
     rec.add('CQuiesce', props, nt=True)
+
+
+def history_insensitivity(ctx, props):
+    """The same probe calls before and after a storm of everything else the API offers (failures of every kind
+    included), in ONE interpreter: each probe is judged by TLC against the pure operator both times, so whatever a
+    call leaves behind -- a cache, a pinned switch, a counter, a rewritten class attribute -- shows on the second pass."""
+    import json
+    import wiregen
+    from abstraction import concrete, concrete_frame
+    from pamqp import commands, exceptions, frame
+    rec, rng = ctx.rec, ctx.rng
+    values, frames = [], []
+    if ctx.gen.get('small_values'):
+        lines = open(ctx.gen['small_values']).read().splitlines()
+        for i in range(ctx.shard, len(lines), max(1, len(lines) // 40) * ctx.nshards + 1):
+            values.append(concrete(json.loads(lines[i])['v']))
+    if ctx.gen.get('small_frames'):
+        lines = open(ctx.gen['small_frames']).read().splitlines()
+        for i in range(ctx.shard, len(lines), max(1, len(lines) // 30) * ctx.nshards + 1):
+            frames.append(concrete_frame(json.loads(lines[i])['f']))
+    values += [40000, 3000000000, [40000, {'k': 65535}], {'t': gen.rand_datetime_in_range(rng)}, gen.rand_decimal_fitting(rng)]
+    wires = [wiregen.rand_wire_frame(rng, lenient=True) for _ in range(25)]
+
+    def probes(tag):
+        for v in values:
+            rec.add('EncodeValue', props, nt=True, phase=tag, **actions.encode_value(v, 'top'))
+        for f in frames:
+            rec.add('RoundTrip', props, nt=True, phase=tag, **actions.roundtrip(f, 5))
+        for b in wires:
+            rec.add('Unmarshal', props, nt=True, phase=tag, **actions.unmarshal(b))
+
+    probes('fresh')
+    # ---- the storm ----
+    for v in wild_misc(rng) + wild_decimals(rng)[:20] + wild_datetimes(rng)[:12] + [1 << 64, -(1 << 70), 1e39]:
+        actions.encode_value(v, 'top')
+        actions.encode_value({'k': v, '\u20ac' * 100: 1}, 'table')
+        for ty in ('octet', 'short', 'longlong', 'shortstr', 'table', 'timestamp'):
+            actions.encode_arg(ty, v)
+    for label, b in itertools.islice(fuzz_inputs(ctx, 1), 0, None, 23):
+        actions.unmarshal(b)
+        actions.unmarshal(b)
+    for sm in framegen.METHODS[::3]:
+        for a, ty, d in sm[3]:
+            vals = c13_values(rng, sm[0], a, ty)
+            for v in vals[:6]:
+                actions.construct(sm[0], {a: v})
+                try:
+                    actions.set_then_marshal(sm[0], framegen.method_kwargs(rng, sm), a, v, between=True)
+                except Exception:  # noqa
+                    pass
+    for code in (0, 200, 310, 312, 404, 541, 600):
+        try:
+            exceptions.CLASS_MAPPING[code]
+        except KeyError:
+            pass
+        exceptions.CLASS_MAPPING.get(code)
+    for f in frames[:20]:
+        actions.observe(f) if hasattr(f, 'attributes') else None
+    for mode in ('true', 'noarg', 'false', 'true', 'false'):
+        actions.toggle(mode)
+        for v in values[-5:]:
+            actions.encode_value(v, 'top')
+    rec.add('Toggle', props, **actions.toggle('false'))
+    probes('after-storm')
